@@ -109,24 +109,37 @@ class C11(object):
         from sfc_models.equation_solver import EquationSolver
         rec = monitors.Recorder()
         for nm in case['names']:
-            for text in ('%s = 1.0\ny = 2\nMaxTime = 2' % nm, 'y = 2\n%s = y + 1\nMaxTime = 2' % nm):
-                s = EquationSolver()
-                outcome = 'returned'
-                try:
-                    with contextlib.redirect_stdout(io.StringIO()):
-                        s.ParseString(text)
-                        s.SolveEquation()
-                except NameError:
-                    outcome = 'NameError'
-                except Exception as e:
-                    outcome = type(e).__name__
-                if outcome == 'NameError' and len(s.TimeSeries) == 0:
-                    rec.count('names.rejected')
-                else:
-                    rec.violate('reserved_name_not_rejected', {'name': nm, 'outcome': outcome,
-                                                               'series': sorted(s.TimeSeries.keys())[:5]})
+            texts = ('%s = 1.0\ny = 2\nMaxTime = 2' % nm, 'y = 2\n%s = y + 1\nMaxTime = 2' % nm,
+                     'y = 2\nMaxTime = 2\nexogenous\n%s = [1.0]*5' % nm)
+            for ti, text in enumerate(texts):
+                for how in ('default', 'ctor_noreduction', 'attr_noreduction', 'ctor_text'):
+                    if ti == 2 and how in ('attr_noreduction', 'ctor_text'):
+                        continue
+                    outcome = 'returned'
+                    s = None
+                    try:
+                        with contextlib.redirect_stdout(io.StringIO()):
+                            if how == 'ctor_text':
+                                s = EquationSolver(text, run_equation_reduction=False)
+                            else:
+                                s = EquationSolver() if how == 'default' else EquationSolver(run_equation_reduction=False)
+                                if how == 'attr_noreduction':
+                                    s = EquationSolver()
+                                    s.RunEquationReduction = False
+                                s.ParseString(text)
+                            s.SolveEquation()
+                    except NameError:
+                        outcome = 'NameError'
+                    except Exception as e:
+                        outcome = type(e).__name__
+                    n_series = len(s.TimeSeries) if s is not None else 0
+                    if outcome == 'NameError' and n_series == 0:
+                        rec.count('names.rejected')
+                    else:
+                        rec.violate('reserved_name_not_rejected', {'name': nm, 'outcome': outcome, 'configured': how,
+                                                                   'text': text, 'n_series': n_series})
         return {'verdict': 'violated' if rec.violations else 'held', 'nontrivial': True,
-                'evals': 2 * len(case['names']), 'keys': ['name:' + n for n in case['names']], 'shape': 'names',
+                'evals': 10 * len(case['names']), 'keys': ['name:' + n for n in case['names']], 'shape': 'names',
                 'counters': rec.counters, 'violations': rec.violations,
                 'obs': {'chunk': case['chunk'], 'of': case['of'], 'first': case['names'][:5]}}
 
